@@ -135,6 +135,24 @@ def build_c11(ex, repo_src):
     return decl, Q, ["Time48::eq_fudged"], n, "use domain::rdata::tsig::Time48;"
 
 
+def build_c13(ex, repo_src):
+    F = ex.find(r"^split_rtype$")
+    pan, v, unr, n = ex.summarize(F, [Val("struct", [BV(16, "t")])])
+    blk, octet, mask = v.a[0][0].a[1], v.a[0][1].a[1], v.a[0][2].a[1]
+    decl = "(declare-const t (_ BitVec 16))"
+    want = (f"(and (= {blk} ((_ extract 15 8) t)) "
+            f"(= {octet} ((_ zero_extend 59) ((_ extract 7 3) t))) "
+            f"(= {mask} (bvlshr #x80 ((_ zero_extend 5) ((_ extract 2 0) t)))))")
+    Q = [
+        {"name": "split_rtype_is_window_octet_bit", "assert": f"(not {want})", "expect": "unsat", "vars": "t",
+         "rust": "let t={t}u16; let mut b=RtypeBitmapBuilder::<Vec<u8>>::new(); b.add(Rtype::from_int(t)).unwrap(); let bm=b.finalize(); let d=bm.as_slice(); assert_eq!(d[0], (t>>8) as u8); assert_eq!(d[1] as usize, ((t&0xFF)>>3) as usize + 1); assert_eq!(d[d.len()-1], 0x80u8 >> (t&7)); assert!(bm.contains(Rtype::from_int(t)));",
+         "note": "window = high octet, octet index = bits 7..3 of the low octet, mask = 0x80 >> low three bits (RFC 4034 4.1.2)"},
+        {"name": "split_rtype_never_panics", "assert": f"(or {pan} {unr})", "expect": "unsat", "vars": "t", "rust": None, "note": ""},
+        {"name": "witness_last_bit_of_last_window", "assert": f"(and (= {blk} #xff) (= {mask} #x01) (= {octet} (_ bv31 64)))", "expect": "sat", "vars": "t", "rust": None, "note": ""},
+    ]
+    return decl, Q, ["rdata::dnssec::split_rtype"], n, "use domain::base::iana::Rtype; use domain::rdata::dnssec::RtypeBitmapBuilder;"
+
+
 def solve(decl, Q):
     script = "(set-logic ALL)\n" + decl + "\n"
     for qq in Q:
@@ -207,7 +225,7 @@ def run(prop, tier):
     try:
         mir, dump_s = dump_mir()
         ex = Exec(load_functions(mir))
-        decl, Q, funcs, npaths, header = (build_c17 if prop == "C17" else build_c11)(ex, REPO)
+        decl, Q, funcs, npaths, header = {"C17": build_c17, "C11": build_c11, "C13": build_c13}[prop](ex, REPO)
         res, script = solve(decl, Q)
     except Unsupported as e:
         return [{"name": f"mir2smt::{prop}", "engine": "mir2smt", "verdict": "inconclusive", "note": f"translator: {e}", "wall_s": round(time.time() - t0, 1), "queries": 0}]
